@@ -5,6 +5,7 @@ package lifecycle
 import (
 	"context"
 	"fmt"
+	mnoop "go.opentelemetry.io/otel/metric/noop"
 	"sort"
 	"strings"
 	"testing"
@@ -690,7 +691,22 @@ func (w *world) metricScenario(plans [][]planOp) {
 					inflight[name] = "add"
 					c := counter0
 					if ev.fresh {
-						c, _ = mp.Meter(fmt.Sprintf("m%d", op.arg)).Int64Counter("c")
+						m := mp.Meter(fmt.Sprintf("m%d", op.arg))
+						// "after Shutdown has returned, providers hand out no-op ... meters" - whatever it
+						// returned (after seeded change C15-g)
+						if _, isNoop := m.(mnoop.Meter); !isNoop {
+							for _, o := range w.ops {
+								if o.Kind == "shutdown" && o.Ret != 0 && o.Ret < ev.inv {
+									oc := "after-shutdown"
+									if o.Err != nil {
+										oc = "after-failed-shutdown"
+									}
+									r.Violate(prop, "live-meter-after-shutdown", "live-meter-after-shutdown/"+oc, "Meter() requested at %d, after MeterProvider.Shutdown returned (%v) at %d, is a %T, not a no-op meter", ev.inv, o.Err, o.Ret, m)
+									break
+								}
+							}
+						}
+						c, _ = m.Int64Counter("c")
 					}
 					c.Add(context.Background(), 1)
 					ev.ret = sim.Stamp()
